@@ -123,6 +123,7 @@ class Trace:
         self.exc = None
         self.kwargs_summary = None
         self.log_records = None
+        self.input_style = 0
 
 
 def build_kwargs(problem, cfg, trace, hooks=None, checkpoint=None, x0=None):
@@ -219,6 +220,23 @@ def build_kwargs(problem, cfg, trace, hooks=None, checkpoint=None, x0=None):
             lo = np.where(lo > P.ub, np.nextafter(lo, -inf), lo)
             kw["x0"] = lo.astype(cfg["x0_dtype"])
     kw["bounds"] = hooks["bounds_obj"] if "bounds_obj" in hooks else P.bounds.copy()
+    # Value-preserving variety in how the caller writes its inputs (chosen from the problem's seed, so that every run of one problem
+    # uses the same style): the box as a list of (low, high) tuples with None for "no bound", the start as a non-contiguous view of a
+    # larger work array, the start in extended precision, the box as a Fortran-ordered array. None of this changes a value.
+    style = cfg.get("input_style", int(P.spec.get("seed", 0)) % 7 if isinstance(P.spec.get("seed", 0), (int, np.integer)) else 0)
+    if cfg.get("plain_inputs") or "bounds_obj" in hooks or cfg.get("x0_same_object") or cfg.get("x0_dtype") or checkpoint is not None:
+        style = 0
+    if style == 3:
+        kw["bounds"] = [(None if not np.isfinite(a) else float(a), None if not np.isfinite(b) else float(b)) for a, b in P.bounds]
+    elif style == 4:
+        buf = np.full(2 * kw["x0"].size, 777.0)
+        buf[::2] = kw["x0"]
+        kw["x0"] = buf[::2]
+    elif style == 5:
+        kw["x0"] = kw["x0"].astype(np.longdouble)
+    elif style == 6:
+        kw["bounds"] = np.asfortranarray(kw["bounds"])
+    trace.input_style = style
     if cfg.get("fd_steps_as_strided_arrays"):
         # the differencing steps given per variable, as non-contiguous views of a larger work array
         n_ = int(np.size(kw["x0"]))
